@@ -1,5 +1,5 @@
 //! C07 — the query-result cache never serves stale or foreign results (sequential parts 1-3;
-//! the store-after-invalidate race is decided by schedmc).
+//! the store-after-invalidate race is part 4, c07r.rs, under ksched).
 
 use crate::c06::{check_results, lattice, SearchCheck};
 use crate::te::*;
@@ -72,7 +72,7 @@ fn c_alphabet() -> Vec<COp> {
 
 /// Vectors used by part 1 for dimension `dim`: pairwise non-parallel, with mass on the
 /// coordinates around the 32-dimension pruning prefix when dim > 32.
-fn vecs(dim: usize) -> Vec<Vec<f32>> {
+pub fn vecs(dim: usize) -> Vec<Vec<f32>> {
     let mut l = lattice(dim, 1.0);
     if dim > 33 {
         let mut a = vec![0.0f32; dim];
@@ -348,6 +348,22 @@ pub fn run(tier: &str, replay: Option<&str>) -> i32 {
     if let Some(p) = replay {
         let v: Value = serde_json::from_str(&std::fs::read_to_string(p).expect("read")).expect("json");
         let c = &v["case"];
+        if c["part"] == 4 {
+            let prog: crate::c07r::RaceProg = serde_json::from_value(c["program"].clone()).unwrap();
+            let mut rs = crate::c07r::RStats::default();
+            crate::c07r::check_program(&prog, 3, 200_000, &mut rs);
+            if let Some((s, r)) = rs.viol.any_first() {
+                println!("replay: reproduced {s}: {} (schedule {})", r["detail"], r["schedule"]);
+                if std::env::var("KSCHED_TRACE").is_ok() {
+                    println!("locks: {}", serde_json::to_string_pretty(&r["locks"]).unwrap());
+                    println!("trace: {}", serde_json::to_string_pretty(&r["trace"]).unwrap());
+                }
+                println!("VIOLATION property=C07 replay={p}");
+                return 1;
+            }
+            println!("replay: no violation in {} executions", rs.executions);
+            return 0;
+        }
         if c["part"] == 1 {
             let case: Case1 = serde_json::from_value(c["case"].clone()).unwrap();
             let mut st = Stats::default();
@@ -361,6 +377,20 @@ pub fn run(tier: &str, replay: Option<&str>) -> i32 {
             return 0;
         }
         println!("replay: parts 2/3 cases are self-describing (query, inserted vector, boundary); re-run bin/check C07");
+        return 0;
+    }
+    if let Some((wi, wn)) = vcore::par::worker_id() {
+        // part 4 worker process (the scheduler is process-global)
+        let bound: usize = if tier == "thorough" { 3 } else { 2 };
+        let max_execs: usize = if tier == "thorough" { 100_000 } else { 20_000 };
+        let mut rs = crate::c07r::RStats::default();
+        for (i, p) in crate::c07r::programs(tier).iter().enumerate() {
+            if i % wn != wi {
+                continue;
+            }
+            crate::c07r::check_program(p, bound, max_execs, &mut rs);
+        }
+        vcore::par::worker_emit(&json!({"programs":rs.programs,"executions":rs.executions,"points":rs.points,"capped":rs.capped,"hits":rs.epilogue_hits,"misses":rs.epilogue_misses,"outcomes":rs.outcomes.iter().collect::<Vec<_>>(),"violations":rs.viol.to_json()}));
         return 0;
     }
     let depth: usize = std::env::var("C07_DEPTH").ok().and_then(|s| s.parse().ok()).unwrap_or(if tier == "thorough" { 5 } else { 4 });
@@ -389,15 +419,34 @@ pub fn run(tier: &str, replay: Option<&str>) -> i32 {
     }
     merge(&mut tot, part2(tier));
     part3(&mut tot);
+    // part 4: race programs in worker processes
+    let rres = vcore::par::run_workers(vcore::par::jobs(), &[]);
+    let mut rt: BTreeMap<&str, u64> = BTreeMap::new();
+    let mut routcomes: BTreeSet<String> = BTreeSet::new();
     let mut ev = Evidence::new("C07", tier, "model_checking");
     let mut rep = Reporter::new("C07");
     rep.report_sigbag(&tot.viol);
+    for r in &rres {
+        for k in ["programs", "executions", "points", "capped", "hits", "misses"] {
+            *rt.entry(k).or_insert(0) += r[k].as_u64().unwrap_or(0);
+        }
+        for o in r["outcomes"].as_array().unwrap() {
+            routcomes.insert(o.as_str().unwrap().to_string());
+        }
+        rep.report_bag(&r["violations"]);
+    }
     ev.set("states", tot.states.len() as u64);
-    ev.set("transitions", tot.searches + tot.prune_cases + tot.kscope_cases);
-    ev.set("traces_validated_against_impl", tot.histories);
-    ev.set("evaluations", tot.histories + tot.prune_cases + tot.kscope_cases);
+    ev.set("transitions", tot.searches + tot.prune_cases + tot.kscope_cases + rt["points"]);
+    ev.set("traces_validated_against_impl", tot.histories + rt["executions"]);
+    ev.set("evaluations", tot.histories + tot.prune_cases + tot.kscope_cases + rt["executions"]);
+    ev.set("race_programs", rt["programs"]);
+    ev.set("race_executions", rt["executions"]);
+    ev.set("race_programs_capped", rt["capped"]);
+    ev.set("race_epilogue_cache_hits_judged", rt["hits"]);
+    ev.set("race_epilogue_cache_misses", rt["misses"]);
+    ev.set("race_distinct_epilogue_outcomes", routcomes.len() as u64);
     ev.set("distinct_nontrivial", tot.hits_checked + tot.prune_must_remove);
-    ev.set("rule", format!("(1) all 12^{depth} histories per metric x dim {{2,33,40}} x 3 initial states (empty, two populations of three documents at ordered distances from query 0) over searches (two queries, k 1/2, two scopes), inserts/overwrites that move a document, a new closer document, delete, metadata update, bulk load, drain; whenever the path is CacheHit the served list must be a valid fresh top-k of the current reference map (live ids, current distances, right cardinality, no omitted strictly-closer document), judged only where the uncached (ef-override) path is itself exact; (2) for every (query, inserted vector) pair of a {{0,1,32,33}}-supported lattice in dim 40 x metric x five cached-boundary values straddling the exact distance: an entry whose boundary exceeds the exact f64 distance by more than tolerance must be removed by invalidate_for_insert; (3) every ordered (k1,k2) in 1..3 and every ordered scope pair in 0..2 at similarity thresholds {{0,0.5,1}}: an entry stored for k1 never answers k2>k1 and never answers another scope. non-trivial = cache hits judged + pruning cases where removal is mandatory"));
+    ev.set("rule", format!("(1) all 12^{depth} histories per metric x dim {{2,33,40}} x 3 initial states (empty, two populations of three documents at ordered distances from query 0) over searches (two queries, k 1/2, two scopes), inserts/overwrites that move a document, a new closer document, delete, metadata update, bulk load, drain; whenever the path is CacheHit the served list must be a valid fresh top-k of the current reference map (live ids, current distances, right cardinality, no omitted strictly-closer document), judged only where the uncached (ef-override) path is itself exact; (2) for every (query, inserted vector) pair of a {{0,1,32,33}}-supported lattice in dim 40 x metric x five cached-boundary values straddling the exact distance: an entry whose boundary exceeds the exact f64 distance by more than tolerance must be removed by invalidate_for_insert; (3) every ordered (k1,k2) in 1..3 and every ordered scope pair in 0..2 at similarity thresholds {{0,0.5,1}}: an entry stored for k1 never answers k2>k1 and never answers another scope; (4) the store-after-invalidate race: one searcher x one or two writers (insert that moves / adds a closer document, delete, metadata update, bulk load, drain) from two populated states, with and without a cached k=1 entry, EVERY schedule with <= 2 (quick) / 3 (thorough) preemptions under ksched; after join the same search is repeated and, if served from the cache, must be a valid fresh top-k of the final collection. non-trivial = cache hits judged + pruning cases where removal is mandatory"));
     ev.set("samples", json!([{"part":1,"metric":"cosine","dim":40,"history":alpha.iter().take(5).collect::<Vec<_>>()},{"part":2,"coords":[0,1,32,33]}]));
     ev.set("exhaustive", true);
     ev.set("cache_hits_seen", tot.cache_hits);
@@ -408,9 +457,10 @@ pub fn run(tier: &str, replay: Option<&str>) -> i32 {
     ev.set("pruning_cases_entry_legitimately_kept", tot.prune_kept);
     ev.set("k_and_scope_cases", tot.kscope_cases);
     ev.assume("similarity threshold 1.0 and pairwise non-parallel queries in part 1, so every hit is an exact-key hit (similarity hits are approximate by design and not judged)");
-    ev.assume("the store-after-invalidate race (one searcher x one writer, all schedules) is the schedmc section of this property");
+    ev.assume("part 4: scheduling points are lock operations; the query cache's generation counter is an atomic read before the search and compared under the cache's write lock at store time, so lock-granularity interleavings cover every ordering of (generation read, search, invalidate, store)");
     ev.violations = rep.violations as i64;
     ev.write();
+    println!("C07 {tier}: race programs={} executions={} capped={} epilogue hits judged={} misses={} outcomes={}", rt["programs"], rt["executions"], rt["capped"], rt["hits"], rt["misses"], routcomes.len());
     println!("C07 {tier}: histories={} searches={} cache_hits={} judged={} prune_cases={} must_remove={} kscope={} states={} violations={}", tot.histories, tot.searches, tot.cache_hits, tot.hits_checked, tot.prune_cases, tot.prune_must_remove, tot.kscope_cases, tot.states.len(), rep.violations);
     rep.finish()
 }
